@@ -105,6 +105,13 @@ func checkFloatCarrier(x float64) string {
 	if derr != nil {
 		return "carrier bytes not well-formed: " + derr.Error()
 	}
+	// what is on the wire is the value itself: a float32 widened bit for bit, not some double that narrows
+	// back to it (an observer that does not narrow - a Java peer, an interface slot - sees the difference)
+	if want, perr := zoo.Project(c, nm); perr == nil {
+		if w, g := av.Canon(want, c02Canon), av.Canon(a, c02Canon); w != g {
+			return fmt.Sprintf("the stream does not denote the carrier's values: want %s got %s", clipDiff(w, g), clipDiff(g, w))
+		}
+	}
 	msg := ""
 	av.Walk(a, func(n *av.V) {
 		if n.K == av.Double && n.W != nil && msg == "" {
